@@ -1,6 +1,7 @@
 //! Exploration engines and the evidence / findings plumbing shared by all properties.
 pub mod bfs;
 pub mod devdfs;
+pub mod logging;
 pub mod panics;
 pub mod report;
 pub mod util;
